@@ -48,6 +48,12 @@ func c19msgs(v any) []api.Message {
 	for _, x := range l {
 		m := x.(map[string]any)
 		msg := api.Message{Role: c19unhex(m["role"]), Content: c19unhex(m["content"])}
+		if n, ok := m["tool_calls"].(float64); ok {
+			for j := 0; j < int(n); j++ {
+				msg.ToolCalls = append(msg.ToolCalls, api.ToolCall{Function: api.ToolCallFunction{
+					Name: fmt.Sprintf("fn%d", j), Arguments: api.ToolCallFunctionArguments{"arg": j}}})
+			}
+		}
 		if imgs, ok := m["images"].([]any); ok {
 			for _, i := range imgs {
 				msg.Images = append(msg.Images, api.ImageData(c19unhex(i)))
